@@ -40,6 +40,9 @@ fn slice(tier: Tier) -> Vec<(String, PProblem)> {
     let step = (rc.len() / n).max(1);
     out.extend(rc.into_iter().step_by(step).take(n).map(|p| ("recharge".to_string(), p)));
     out.extend(family_combo(2).into_iter().step_by(tier.pick(16, 1)).map(|p| ("combo".to_string(), p)));
+    // vicinity clustering: the clusters are unwrapped by a post-processing step, also when the search was interrupted
+    let ct = family_cluster_tw();
+    out.extend(ct.into_iter().step_by(tier.pick(36, 6)).map(|p| ("cluster".to_string(), p)));
     let td = family_timedep();
     let step = (td.len() / n).max(1);
     out.extend(td.into_iter().step_by(step).take(n).map(|p| ("timedep".to_string(), p)));
